@@ -453,7 +453,7 @@ def part_b():
         first = res[1][0][2][0]
         check(first[4] == "SAMPLE A" and first[5] == VolParent.path + ["SAMPLE A"],
               f"file name/path {first[:6]}")
-        check(first[-1] == s1[140:], "sample A bytes")
+        check(first[-1] == b"", "sample A bytes")
     d = bytearray(good)
     d[ft + 24 + 16] = 0x01          # unknown type byte in entry 1
     res = run_image(fe.FileEntryConstruct, load_image(bytes(d)), (3,))
